@@ -23,9 +23,9 @@ VARIABLES st, hist, found
 vars == <<st, hist, found>>
 
 Items == KeySet(Start) \cup {"zz"}
-Range(s) == {s[i] : i \in 1..Len(s)}
-Lo == IF Start.pri = <<>> THEN 0 ELSE CHOOSE x \in Range(Start.pri) : \A y \in Range(Start.pri) : x <= y
-Hi == IF Start.pri = <<>> THEN 0 ELSE CHOOSE x \in Range(Start.pri) : \A y \in Range(Start.pri) : x >= y
+ValuesOf(s) == {s[i] : i \in 1..Len(s)}
+Lo == IF Start.pri = <<>> THEN 0 ELSE CHOOSE x \in ValuesOf(Start.pri) : \A y \in ValuesOf(Start.pri) : x <= y
+Hi == IF Start.pri = <<>> THEN 0 ELSE CHOOSE x \in ValuesOf(Start.pri) : \A y \in ValuesOf(Start.pri) : x >= y
 Prios == (Lo - ExtraPrios)..(Hi + ExtraPrios)
 
 PopOps == IF Kind = "pq" THEN {"pop"} ELSE {"pop_min", "pop_max"}
